@@ -602,6 +602,51 @@ def c20_reject(rng, tier):
     return out
 
 
+@oracle("C08", "aerostruct_ground_effect")
+def c08_aerostruct_ground(rng, tier):
+    """ground effect in the aerostructural point (`AerostructPoint` wires `height_agl` and the image rows itself): far from the
+    ground it returns the free-air aerostructural result, and for a very stiff structure at a finite height it returns the rigid
+    aerodynamic analysis with ground effect on the same mesh"""
+    s = _as_surface(rng, tier, sym=True)
+    flow = _as_flow(rng)
+    sg = dict(s); sg["groundplane"] = gen.flag(rng, True)
+    out = []
+    case = dict(ny=s["mesh"].shape[1], alpha=flow["alpha"])
+    keys = ("CL", "CD", "L_equals_W")
+    def vals(p):
+        return np.array([p.get_val("AS_point_0." + k)[0] for k in keys])
+    chord = float(np.max(s["mesh"][-1, :, 0] - s["mesh"][0, :, 0]))
+    p0 = pipelines.build_aerostruct([s], [flow])
+    pfar = pipelines.build_aerostruct([sg], [dict(flow, height_agl=1e6 * chord)])
+    with quiet():
+        p0.run_model(); pfar.run_model()
+    if relerr(vals(pfar), vals(p0)) > 1e-5:
+        out.append(_fail("aerostructural point: ground effect does not vanish 1e6 chords above the ground", vals(pfar), vals(p0), **case))
+    d0 = np.array(p0.get_val("AS_point_0.coupled.wing.disp")); d1 = np.array(pfar.get_val("AS_point_0.coupled.wing.disp"))
+    if relerr(d1, d0) > 1e-5:
+        out.append(_fail("aerostructural point: displacements far from the ground differ from the free-air result", d1[0], d0[0], **case))
+    # rigid limit at a finite height
+    h = float(rng.uniform(0.5, 5.0)) * chord
+    ss = dict(sg); ss["E"] = s["E"] * 1e6; ss["G"] = s["G"] * 1e6
+    pr = pipelines.build_aerostruct([ss], [dict(flow, height_agl=h)])
+    with quiet():
+        pr.run_model()
+    from .pipelines import aero_surface
+    sa = [dict(aero_surface("wing", s["mesh"], True), S_ref_type=s["S_ref_type"], groundplane=True)]
+    mesh_rigid = np.array(pr.get_val("wing.mesh"))
+    pa = pipelines.run_aero_point(sa, dict(flow, cg=np.zeros(3), height_agl=h), meshes=[mesh_rigid])
+    Fr = np.array(pr.get_val("AS_point_0.coupled.aero_states.wing_sec_forces")); Fa = np.array(pa.get_val("pt.aero_states.wing_sec_forces"))
+    if relerr(Fr, Fa) > 1e-4:
+        out.append(_fail("aerostructural point with ground effect: a very stiff structure does not reproduce the rigid analysis with "
+                         "ground effect at the same height", Fr[0, :2], Fa[0, :2], height_over_chord=h / chord, **case))
+    # and the ground must matter at that height (the comparison above is not vacuous)
+    pfree = pipelines.run_aero_point([dict(sa[0], groundplane=False)], dict(flow, cg=np.zeros(3)), meshes=[mesh_rigid])
+    Ff = np.array(pfree.get_val("pt.aero_states.wing_sec_forces"))
+    if h < 2 * chord and relerr(Fa, Ff) < 1e-6:
+        raise Discard()
+    return out
+
+
 @oracle("C20", "finite_repeatable_nonmutating")
 def c20_repeatable(rng, tier):
     import hashlib
